@@ -86,10 +86,12 @@ def open_circuit_impedance(network: Network, node1: str, node2: str, node_index_
         node1, node2 = node2, node1
     network = trf.switch_ground_node(network=network, new_ground=node2)
     Y = node_admittance_matrix(network, node_index_mapper=node_index_mapper)
-    Y = np.delete(Y, np.where(~Y.any(axis=0))[0], axis=1)
+    empty_columns = np.where(~Y.any(axis=0))[0]
+    Y = np.delete(Y, empty_columns, axis=1)
     Y = np.delete(Y, np.where(~Y.any(axis=1))[0], axis=0)
     Z = np.linalg.inv(Y)
     i1 = node_index_mapper(network)[node1]
+    i1 = i1 - len([i for i in empty_columns if i < i1])
     return Z[i1][i1]
 
 def element_impedance(network: Network, element: str, node_index_mapper: map.NetworkMapper = map.default_node_mapper) -> complex:
